@@ -8,29 +8,45 @@
    i = length xs and 0 for every other operation. *)
 From RV Require Import Collection.Model Collection.Proofs Collection.Reads Collection.Historical.
 
-(* [Inv s xs]: the graph of state s is duplicate-free and its rdf:first/rdf:rest
-   triples are exactly a chain HEAD -> ... -> rdf:nil carrying xs (no triple at
-   all when xs = []), cells pairwise distinct, none of them rdf:nil, all below
-   the counter that stands for BNode(). *)
+(* [frozen s]: s is below the cell numbers and is neither the head nor rdf:nil -
+   a subject that can never be a cell of the collection under test.  The graph
+   may hold ANY triples with frozen subjects: other collections (also with a tail
+   leading into this one), lists nested as members, unrelated statements.
+   [Inv frozen s xs]: the graph of state s is duplicate-free and its
+   rdf:first/rdf:rest triples with a non-frozen subject are exactly a chain
+   HEAD -> ... -> rdf:nil carrying xs (none at all when xs = []), cells pairwise
+   distinct, not frozen, none of them rdf:nil, all below the counter that stands
+   for BNode(), which never returns a frozen node.
+   [Frame frozen g g']: g and g' have the same triples with a frozen subject. *)
 
-(* the initial state of every case in scope satisfies the invariant *)
-Theorem C19_init_represents : forall c, wfb c = true -> Inv (init_st c) (c_init c).
+(* the initial state of every case in scope satisfies the invariant, and its
+   frozen part is the frozen part of the case's noise triples *)
+Theorem C19_init_represents : forall c, wfb c = true ->
+  Inv frozen (init_st c) (c_init c) /\ FrameInv (c_noise c) (gr (init_st c)).
 Proof. exact init_Inv. Qed.
 Print Assumptions C19_init_represents.
 
-(* refinement, one operation: every operation - any index, negative ones,
-   index = len(c) for reads and deletes, del c[0], += [], on any list including
-   the empty one, any members - except c[len(c)] = v returns what the Python
-   list returns (index() of an absent item: raises) and leaves a state that
-   represents the list's new value, whose chain is well-formed and whose
-   iteration yields exactly the list *)
-Theorem C19_refines : forall s xs o, Inv s xs -> kf_op xs o = 0%N ->
+(* refinement and frame, one operation: every operation - any index, negative
+   ones, index = len(c) for reads and deletes, del c[0], += [], on any list
+   including the empty one, any members - except c[len(c)] = v returns what the
+   Python list returns (index() of an absent item: raises), leaves a state that
+   represents the list's new value with list(c) = the list, and changes no triple
+   with a frozen subject.  Stated for any set fz of frozen subjects that contains
+   neither rdf:nil nor the head. *)
+Theorem C19_refines : forall fz, fz NIL = false -> fz HEAD = false ->
+  forall s xs o, Inv fz s xs -> kf_op xs o = 0%N ->
   let '(s', r) := c_step HEAD s o in
   let '(xs', e) := lstep xs o in
-  Inv s' xs' /\ WF (gr s') HEAD xs' /\ c_iter (gr s') HEAD = RList xs' /\
+  Inv fz s' xs' /\ Frame fz (gr s) (gr s') /\ c_iter (gr s') HEAD = RList xs' /\
   (match o, e with OIndex _, RExc _ => is_exc r = true | _, _ => r = e end).
 Proof. exact refines_step. Qed.
 Print Assumptions C19_refines.
+
+(* a represented list is well-formed: after taking away the triples with a frozen
+   subject, the first/rest triples are exactly the chain *)
+Theorem C19_represented_is_wf : forall fz s xs, Inv fz s xs -> WF (own_part fz (gr s)) HEAD xs.
+Proof. exact Inv_WF. Qed.
+Print Assumptions C19_represented_is_wf.
 
 (* the trigger hypothesis of C19_refines, spelled out *)
 Theorem C19_trigger_is_setitem_at_len : forall xs o,
@@ -44,16 +60,27 @@ Qed.
 Print Assumptions C19_trigger_is_setitem_at_len.
 
 (* deletion and indexing need no hypothesis at all *)
-Theorem C19_getitem_refines : forall s xs i, Inv s xs ->
-  c_getitem (gr s) HEAD i = snd (lstep xs (OGet i)).
+Theorem C19_getitem_refines : forall fz, fz NIL = false -> fz HEAD = false ->
+  forall s xs i, Inv fz s xs -> c_getitem (gr s) HEAD i = snd (lstep xs (OGet i)).
 Proof. exact step_get. Qed.
 Print Assumptions C19_getitem_refines.
 
-Theorem C19_delitem_refines : forall s xs i, Inv s xs ->
-  Inv {| gr := fst (c_delitem (gr s) HEAD i); fresh := fresh s |} (fst (lstep xs (ODel i)))
+Theorem C19_delitem_refines : forall fz, fz NIL = false -> fz HEAD = false ->
+  forall s xs i, Inv fz s xs ->
+  Inv fz {| gr := fst (c_delitem (gr s) HEAD i); fresh := fresh s |} (fst (lstep xs (ODel i)))
+  /\ Frame fz (gr s) (fst (c_delitem (gr s) HEAD i))
   /\ snd (c_delitem (gr s) HEAD i) = snd (lstep xs (ODel i)).
 Proof. exact step_del. Qed.
 Print Assumptions C19_delitem_refines.
+
+(* c += c (and += any iterator over c itself, += another Collection object on the
+   same node): the list doubles - at full strength, no trigger (repair 3075b467) *)
+Theorem C19_iadd_self_doubles : forall fz, fz NIL = false -> fz HEAD = false ->
+  forall s xs, Inv fz s xs ->
+  Inv fz (fst (c_iadd_self s HEAD)) (xs ++ xs) /\ Frame fz (gr s) (gr (fst (c_iadd_self s HEAD)))
+  /\ snd (c_iadd_self s HEAD) = RNone.
+Proof. exact step_iadd_self. Qed.
+Print Assumptions C19_iadd_self_doubles.
 
 (* refinement, whole histories, in the form the conformance check evaluates *)
 Theorem C19_spec_ok_model : forall c, wfb c = true -> kf c = 0%N -> spec_ok c (model_obs c) = true.
@@ -61,25 +88,34 @@ Proof. exact spec_ok_model. Qed.
 Print Assumptions C19_spec_ok_model.
 
 (* what the checker's verdict on one snapshot means *)
-Theorem C19_snap_ok_reading : forall head xs sn, snap_ok head xs sn = true ->
+Theorem C19_snap_ok_reading : forall noise head xs sn, snap_ok noise head xs sn = true ->
   s_items sn = RList xs /\ s_len sn = RNat (N.of_nat (length xs)) /\
-  s_gets sn = map RTerm xs /\ WF (s_triples sn) head xs.
+  s_gets sn = map RTerm xs /\ WF (own_part frozen (s_triples sn)) head xs /\
+  (forall t, frozen (subj t) = true -> (In t (s_triples sn) <-> In t noise)).
 Proof. exact snap_ok_reading. Qed.
 Print Assumptions C19_snap_ok_reading.
 
-Theorem C19_wf_check_reading : forall head xs T, wf_check head xs T = true ->
+(* the boolean well-formedness test is a decision procedure for WF: for ANY list
+   of triples (any order, duplicates allowed) it answers true exactly when - for
+   xs = [] - there is no first/rest triple at all, and otherwise there are cells
+   cs, as many as members, pairwise distinct, none rdf:nil, the first one the head,
+   such that the first/rest triples are exactly
+   (c_i first x_i), (c_i rest c_i+1), (c_last rest nil) *)
+Theorem C19_wf_check_decides : forall head xs T,
+  wf_check head xs T = true <->
   match xs with
   | [] => forall t, In t T -> is_fr t = false
   | _ => exists cs, length cs = length xs /\ NoDup cs /\ ~ In NIL cs /\ hd NIL cs = head /\
                     seteq (filter is_fr T) (chainT (combine cs xs) NIL)
   end.
-Proof. exact wf_check_sound. Qed.
-Print Assumptions C19_wf_check_reading.
+Proof. intros. split; [apply wf_check_sound|apply wf_check_complete]. Qed.
+Print Assumptions C19_wf_check_decides.
 
 (* IndexError exactly where the list raises it: every index outside
    -len(c) .. len(c)-1, negative ones included; nothing is changed.  For item
    assignment the single index len(c) is excepted (F3d). *)
-Theorem C19_index_error : forall s xs i, Inv s xs -> norm_index (length xs) i = None ->
+Theorem C19_index_error : forall fz, fz NIL = false -> fz HEAD = false ->
+  forall s xs i, Inv fz s xs -> norm_index (length xs) i = None ->
   c_getitem (gr s) HEAD i = RExc IndexError /\
   c_delitem (gr s) HEAD i = (gr s, RExc IndexError) /\
   (i <> Z.of_nat (length xs) -> forall v, c_setitem (gr s) HEAD i v = (gr s, RExc IndexError)).
@@ -117,6 +153,17 @@ Theorem C19_cyclic_reads_raise : forall g head, cyclic_iter g head = true ->
   c_iter g head = RExc ValueError /\ c_len g head = RExc ValueError.
 Proof. exact cyclic_reads_raise. Qed.
 Print Assumptions C19_cyclic_reads_raise.
+
+(* ... and only then: the cycle test of the specification (which never runs out
+   of fuel either) characterises exactly when iteration raises *)
+Theorem C19_iter_raises_iff_cyclic : forall g head,
+  cyclic_iter g head = true <-> c_iter g head = RExc ValueError.
+Proof. exact iter_raises_iff_cyclic. Qed.
+Print Assumptions C19_iter_raises_iff_cyclic.
+
+Theorem C19_cycle_test_total : forall stop g head, cyclic_f stop (fuel_of g) g head [head] <> None.
+Proof. exact cyclic_f_total. Qed.
+Print Assumptions C19_cycle_test_total.
 
 (* index() of an item that is no rdf:first object of the graph raises, on every
    graph - looping chains included *)
@@ -163,13 +210,23 @@ Theorem C19_prefix_index_cyclic_refuted :
 Proof. split; [exact old_index_loops|vm_compute; reflexivity]. Qed.
 Print Assumptions C19_prefix_index_cyclic_refuted.
 
+(* F3h (fixed 3075b467): before the repair the loop of __iadd__ pulled its items
+   lazily from the chain it was extending; the model of that code runs out of
+   fuel on [1] and on [1, 6, 5] *)
+Theorem C19_prefix_iadd_self_refuted :
+  snd (old_iadd_self {| gr := graph_of [1%N]; fresh := 100%N |} HEAD) = RHang /\
+  snd (old_iadd_self {| gr := graph_of [1; 6; 5]%N; fresh := 102%N |} HEAD) = RHang.
+Proof. exact old_iadd_self_hangs. Qed.
+Print Assumptions C19_prefix_iadd_self_refuted.
+
 (* non-vacuity: a trigger-free history over falsy members and duplicates with
    negative indices, deletion of the head, the tail, a middle and the only
    element, reads and deletes at len(c), += [] on the emptied collection *)
 Example C19_nonvacuous :
-  let c := {| c_init := [6; 5; 6; 7]%N; c_noise := [(1, 3, 30); (30, 4, 5)]%N;
+  let c := {| c_init := [6; 5; 6; 7]%N; c_noise := [(1, 3, 30); (30, 4, 5); (50, 21, 6); (50, 22, 51); (51, 21, 1); (51, 22, 100); (2, 21, 1)]%N;
               c_ops := [ODel 0; OGet (-1); OSet (-3) 14%N; ODel (-1); ODel 2; OGet 2; ODel 0; ODel 0;
                         OIadd []; OGet 0; OAppend 7%N; OIadd [6; 6]%N; ODel 1; OIndex 6%N;
-                        OClear; OIadd [14]%N; OContains 14%N; OIndex 1%N; OGet (-2)] |} in
-  wfb c = true /\ kf c = 0%N /\ spec_ok c (model_obs c) = true /\ length (model_obs c) = 19%nat.
+                        OClear; OIadd [14]%N; OContains 14%N; OIndex 1%N; OGet (-2);
+                        OInit [50; 6]%N; OIaddSelf; ON3; ODel 0; OLen] |} in
+  wfb c = true /\ kf c = 0%N /\ spec_ok c (model_obs c) = true /\ length (model_obs c) = 24%nat.
 Proof. repeat split; vm_compute; reflexivity. Qed.
